@@ -293,6 +293,13 @@ def callOutcome (cfg : Cfg) (r : Reg) (k : Svc) (ctxVal : String) (data : Kw) (r
     else if !rr && h.resp == .only && cfg.respEnum then .invalid
     else .ran h.gen (handlerKwargs ctxVal data) rr
 
+/-- several calls of one service that overlap in time (the function suspends, e.g. in `task.sleep`, and the next call
+arrives before the first has finished).  Both handlers (`pyscript_service_handler`, `_service_callback`) build a fresh
+`AstEval` evaluation context **per call** – the callee's symbol table, `curr_func`, the symbol-table stack live in that
+object – so the calls do not see each other: every call is answered as if it were alone. -/
+def overlapOutcome (cfg : Cfg) (r : Reg) (k : Svc) (ctxVal : String) (datas : List Kw) (rr : Bool) : List CallOut :=
+  datas.map (fun d => callOutcome cfg r k ctxVal d rr)
+
 /-! ## outgoing calls: splitting the keyword arguments -/
 
 /-- the python type of a keyword value, as far as the splitting looks at it -/
